@@ -37,6 +37,7 @@ type fakeConn struct {
 	onWrite func(w written)
 	// returns an error to fail the write
 	failWrite func(n int, b []byte, addr net.Addr) error
+	shortWrites atomic.Bool // WriteTo returns len-1, nil
 	reads   atomic.Int64
 	// number of ReadFrom calls entered
 	readCalls atomic.Int64
@@ -81,6 +82,11 @@ func (c *fakeConn) WriteTo(p []byte, addr net.Addr) (int, error) {
 	c.mu.Unlock()
 	if f := c.onWrite; f != nil {
 		f(w)
+	}
+	if c.shortWrites.Load() && len(p) > 0 {
+		// the transport reports a short count without an error (an MTU-enforcing or proxying PacketConn): the
+		// datagram has left, truncated
+		return len(p) - 1, nil
 	}
 	return len(p), nil
 }
